@@ -39,6 +39,7 @@ CONTROLS = {
     "Retry": [("Retry.mc.cfg", {"Bug": '"no_inherit"'}, "ContractHolds"),
               ("Retry.mc.cfg", {"Bug": '"no_wake_on_retry"'}, "NoLostWakeup"),
               ("Retry.mc.cfg", {"Bug": '"done_check_before_locks"'}, "ContractHolds"),
+              ("Retry.mc3.cfg", {"Bug": '"stop_priority_lost"'}, "ContractHolds"),
               ("Retry.mc.cfg", {"AsShipped_D8": "TRUE"}, "NoStaleJobAtEnd"),
               ("Retry.mc.cfg", {"AsShipped_D9": "TRUE"}, "ContractHolds")],
     "Throttle": [("Throttle.dyn.cfg", {"Bug": '"lifo"'}, "ContractHolds"),
